@@ -119,6 +119,14 @@ class Builder(object):
         from .values import Opaque
         return Opaque(name)
 
+    def optstr(self, name):
+        from .values import Opt
+        return Opt(self.ctx.bool(name + ".isnone"), self.ctx.string(name), kind="str")
+
+    def optint(self, name):
+        from .values import Opt
+        return Opt(self.ctx.bool(name + ".isnone"), self.ctx.int(name), kind="num")
+
     def optobj(self, name, obj):
         from .values import OptObj
         return OptObj(self.ctx.bool(name + ".isnone"), obj)
@@ -441,7 +449,7 @@ def run_contract_paths(program, registry, con, active_cases=None, prefix=None, f
                                {"props": list(cl.props), "expected": "sat", "case": c}, kind="post",
                                assume_after=False)
             else:
-                ctx.oblige(oname, _b(g), {"props": list(cl.props)}, kind="post", assume_after=False)
+                ctx.oblige(oname, _b(g), {"props": list(cl.props)}, kind="post", assume_after=bool(cl.lemma))
         # ---- frame
         if con.modifies_ is not None:
             seen = set()
@@ -590,6 +598,26 @@ def solve_obligation(ob, symbols, timeout_ms=None):
     quant = has_quantifier(neg) or any(has_quantifier(p) for p in ob.pc)
     r = z3.unknown
     backend = "z3"
+    smt2 = s.to_smt2()
+    if "str." in smt2 or "String" in smt2:
+        # sequence theory: z3 is unstable here, cvc5 --strings-exp decides these queries (see the brief); give z3 a short
+        # attempt and cvc5 the budget
+        r = _check(s, 1500)
+        if r == z3.unsat:
+            return Verdict(ob, "discharged", "z3-seq", time.time() - t0)
+        if r == z3.sat:
+            vals = extract_model(s.model(), symbols)
+            return Verdict(ob, "refuted", "z3-seq", time.time() - t0, model=vals)
+        rc = cvc5_check(smt2, max(timeout_ms * 2, 40000))
+        if rc == "unsat":
+            return Verdict(ob, "discharged", "cvc5", time.time() - t0)
+        if rc == "sat":
+            # ask z3 for a model with a longer budget so that the counter-example can be replayed
+            r = _check(s, timeout_ms)
+            if r == z3.sat:
+                return Verdict(ob, "refuted", "cvc5+z3-model", time.time() - t0, model=extract_model(s.model(), symbols))
+            return Verdict(ob, "candidate", "cvc5", time.time() - t0, model={}, reason="cvc5 reports sat; no model extracted")
+        return Verdict(ob, "unknown", "z3+cvc5", time.time() - t0, reason="string query undecided by z3 (1.5 s) and cvc5")
     if not has_quantifier(neg):
         # try the nonlinear-real tactic first on the quantifier-free part of the hypotheses (dropping hypotheses is
         # sound for a proof; a `sat` answer is only trusted when nothing was dropped), then the default solver
@@ -869,7 +897,7 @@ def verify_contract(program, registry, con, timeout_ms=None, active_cases=None, 
                 res.setdefault("skipped_after_refutation", 0)
                 res["skipped_after_refutation"] += 1
                 continue
-            if undecided_count.get(ob.name, 0) >= 2:
+            if undecided_count.get(ob.name, 0) >= (2 if not ob.meta.get("strings") else 6):
                 v = Verdict(ob, "unknown", "skipped", 0.0, reason="two instances of this clause are already undecided (time budget)")
             else:
                 v = inc.solve(ob)
